@@ -43,6 +43,7 @@ package tcp
 // in order, S/E = that range's own bounds) + ")". The SYN variant appends " and tcp[13] == 18".
 //@ func BPFFilter
 //@   props C03
+//@   modifies nothing
 //@   observe (*strings.Builder).WriteString, (*strings.Builder).WriteRune, (*strings.Builder).String, (*net.IPNet).String, fmt.Sprintf, strings.Join
 //@   entry row bare:    [call WriteString(_, "tcp") ; call String(_) as (res)] when r.DstSubnet == nil && len(r.Ports) == 0 && ret0 == res && ret1 == 1518 -> exit
 //@   entry row net:     [call WriteString(_, "tcp") ; call WriteString(_, " and ip src net ") ; call String(r.DstSubnet) as (ns) ; call WriteString(_, ns) ; call String(_) as (res)]
@@ -57,6 +58,7 @@ package tcp
 //@   loop 0 row close:  [call strings.Join(ranges, " or ") as (j) ; call WriteString(_, j) ; call WriteRune(_, 41) ; call String(_) as (res)] when ret0 == res && ret1 == 1518 -> exit
 //@ func SYNACKBPFFilter
 //@   props C03
+//@   modifies nothing
 //@   observe BPFFilter
 //@   entry row synack: [call BPFFilter(r) as (f, n)] when ret0 == f + " and tcp[13] == 18" && ret1 == n -> exit
 
